@@ -380,12 +380,37 @@ def run(ctx):
     gtrace_u = ctx.path("traces", "growth_unaligned.ndjson")
     cleanup_shm(prefix)
     try:
-        _, so, _ = vp.run_driver("drv-alloc", ["growth", "--root", root, "--prefix", prefix, "--out", gtrace,
-                                              "--out-unaligned", gtrace_u,
-                                              "--scenarios", 16 if quick else 64, "--steps", 14 if quick else 30],
-                                 timeout=900, env={"VERIF_SEED": ctx.seed})
+        rc, so, se = vp.run_driver("drv-alloc", ["growth", "--root", root, "--prefix", prefix, "--out", gtrace,
+                                                "--out-unaligned", gtrace_u,
+                                                "--scenarios", 16 if quick else 64, "--steps", 14 if quick else 30],
+                                   timeout=900, env={"VERIF_SEED": ctx.seed}, ok_codes=None)
     finally:
         cleanup_shm(prefix)
+    if rc != 0:
+        # the driver only calls the safe public API and re-reads the samples it holds: a fatal signal (SIGSEGV / SIGBUS when
+        # the memory behind a held sample was unmapped, an abort) is the behaviour of the code under test = data, not a
+        # tool problem (BUILDING.md); panics are caught inside the driver and arrive as `panic` records instead
+        tails = {}
+        for f in (gtrace, gtrace_u):
+            try:
+                lines = [l for l in open(f, errors="replace").read().splitlines() if l.strip()]
+                good = []
+                for l in lines[-12:]:
+                    try:
+                        good.append(json.loads(l))
+                    except Exception:
+                        pass
+                tails[os.path.basename(f)] = good
+            except OSError:
+                pass
+        if rc < 0 or rc in (134, 139, 135):
+            ctx.report(vp.Violation(
+                f"publisher/subscriber across data-segment growth: the process died with "
+                f"{'signal ' + str(-rc) if rc < 0 else 'exit code ' + str(rc)} while using the public API (held samples are "
+                f"re-read after every step: memory behind a held sample / loan is no longer mapped, or the ports aborted)",
+                replay={"exit": rc, "last_records": tails, "stderr": se[-1500:]}, signature=f"growth:crash:{rc}"))
+            return
+        raise vp.ToolError(f"drv-alloc growth exited {rc}:\n{so[-2000:]}\n{se[-2000:]}")
     gs = vp.last_json_line(so)
     ctx.coverage["growth"] = gs
     per = gs["per_action"]
